@@ -714,6 +714,54 @@ func init() {
 		}
 	})
 
+	// Unmarshal side only (run under the other decoder configurations, SONIC_USE_OPTDEC)
+	registerGen("c18.pairu", func(g *Gen) {
+		n := len(ocFieldNames)
+		for sw := 0; sw < n; sw++ {
+			c := uint64(0)
+			for _, d := range ocSmallDocs {
+				g.Emit("optpair", itoa(sw), fmt.Sprint(c), "u", d[0], hexArg([]byte(ocPad(d[1]))))
+			}
+		}
+		for i := 0; i < g.N; i++ {
+			sw := i % n
+			// decoder switches three times as often as encoder switches (which must change nothing)
+			if !ocDecSide[ocFieldNames[sw]] && g.R.Intn(3) != 0 {
+				sw = []int{5, 6, 7, 8, 9, 10, 12, 15}[g.R.Intn(8)] % n
+			}
+			ocEmitPair(g, sw, ocRandCfg(g, sw), "u")
+		}
+	})
+
+	registerGen("c18.entryu", func(g *Gen) {
+		for i := 0; i < g.N; i++ {
+			which := []string{"top_u", "dec", "dec", "sdec"}[i%4]
+			cfg := ocRandCfg(g, -1)
+			dest, doc := "any", "-"
+			if which == "sdec" {
+				c := &ocDocCfg{ws: true}
+				dest = ocPick(g, []string{"any", "nest", "flat", "mapany"})
+				var d string
+				switch dest {
+				case "nest":
+					d = ocNestObj(g, c, 2, ocNestKeys)
+				case "flat":
+					d = ocFlatDoc(g)
+				case "mapany":
+					d = ocDocObj(g, c, 2)
+				default:
+					d = ocDocVal(g, c, 3)
+				}
+				doc = hexArg([]byte(ocPad(d)))
+			} else {
+				var d string
+				dest, d = ocGenDoc(g, ocFieldNames[g.R.Intn(len(ocFieldNames))], true)
+				doc = hexArg([]byte(ocPad(d)))
+			}
+			g.Emit("entry", which, fmt.Sprint(cfg), "-", dest, doc)
+		}
+	})
+
 	registerGen("c18.words", func(g *Gen) {
 		n := uint(len(ocFieldNames))
 		if g.Tier == "thorough" {
